@@ -194,6 +194,7 @@ pub fn run_topic(topic: &str, cx: &mut Ctx) -> bool {
         "hascoal" => hascoal(cx),
         "fold" => fold(cx),
         "refs" => refs(cx),
+        "cycles" => cycles(cx),
         "parse_eval" => parse_eval(cx),
         "total" => total(cx),
         "conv" => conv(cx),
@@ -1157,10 +1158,48 @@ fn edge(kind: usize, target: &str) -> T {
         6 => bin("+", call("size", vec![T::FStr(vec![Seg::Expr(q())])]), one()),                        // f-string segment
         7 => bin("+", idx(T::List((0..80).map(|i| lit(V::Int(i))).collect()), q()), one()),              // index expression
         8 => bin("||", q(), lit(V::Bool(true))),                                                        // absorbing edge
-        _ => bin("+", idx(mcall(T::List(vec![one()]), "filter", vec![id("x"), bin(">", q(), lit(V::Int(-5)))]), lit(V::Int(0))), one()), // macro predicate
+        9 => bin("+", idx(mcall(T::List(vec![one()]), "filter", vec![id("x"), bin(">", q(), lit(V::Int(-5)))]), lit(V::Int(0))), one()), // macro predicate
+        // every other macro, and map receivers
+        10 => bin("+", call("size", vec![mcall(T::Map(vec![(lit(V::Str("k".into())), one())]), "filter", vec![id("x"), bin(">", q(), lit(V::Int(-5)))])]), lit(V::Int(0))),
+        11 => bin("+", idx(mcall(T::Map(vec![(lit(V::Str("k".into())), one())]), "map", vec![id("x"), q()]), lit(V::Int(0))), one()),
+        12 => bin("+", tern(mcall(T::List(vec![one()]), "all", vec![id("x"), bin(">", q(), lit(V::Int(-5)))]), one(), lit(V::Int(0))), lit(V::Int(0))),
+        13 => bin("+", tern(mcall(T::List(vec![one()]), "exists", vec![id("x"), bin(">", q(), lit(V::Int(-5)))]), one(), lit(V::Int(0))), lit(V::Int(0))),
+        14 => bin("+", tern(mcall(T::List(vec![one()]), "exists_one", vec![id("x"), bin(">", q(), lit(V::Int(-5)))]), one(), lit(V::Int(0))), lit(V::Int(0))),
+        _ => bin("+", mcall(T::List(vec![one()]), "reduce", vec![id("acc"), id("x"), bin("+", id("acc"), q()), lit(V::Int(0))]), one()),
     }
 }
-const NEDGE: usize = 10;
+const NEDGE: usize = 16;
+
+/// C01: reference cycles of length one and two through every referencing construct: each must end in an
+/// error (or a value), never in stack exhaustion; every case in a child process, also on a 2 MB thread.
+pub fn cycles(cx: &mut Ctx) {
+    let child = serde_json::json!({"child": true, "law": "cycle"});
+    let mut emit = |cx: &mut Ctx, progs: Vec<(&str, T)>| {
+        let mut c = cx.case(id("p1"));
+        for (n, t) in progs {
+            c.progs.insert(n.to_string(), t);
+        }
+        c.bind.insert("v".into(), V::Int(7));
+        c.forms = forms(&["bound", "thread"]);
+        c.extra = child.clone();
+        cx.out(c);
+    };
+    // a failure an enclosing operator could absorb: the cycle still ends in an error
+    let absorb = |k: usize, t: T| match k {
+        0 => t,
+        1 => bin("||", t, lit(V::Bool(true))),
+        2 => call("coalesce", vec![t, lit(V::Int(1))]),
+        _ => tern(call("has", vec![t]), lit(V::Int(1)), lit(V::Int(2))),
+    };
+    for k1 in 0..NEDGE {
+        for a in 0..4 {
+            emit(cx, vec![("p1", absorb(a, edge(k1, "p1")))]);
+        }
+        for k2 in 0..NEDGE {
+            emit(cx, vec![("p1", edge(k1, "p2")), ("p2", absorb((k1 + k2) % 4, edge(k2, "p1")))]);
+        }
+    }
+}
 
 pub fn refs(cx: &mut Ctx) {
     let names = ["p1", "p2", "p3", "p4"];
@@ -1181,7 +1220,7 @@ pub fn refs(cx: &mut Ctx) {
             let nedges = succ.iter().filter(|s| **s < n).count();
             let kinds_total = NEDGE.pow(nedges as u32);
             for kc in 0..kinds_total {
-                if nedges >= 2 && !cx.thorough && cx.rng.below(if nedges == 2 { 6 } else { 60 }) != 0 {
+                if nedges >= 2 && !cx.thorough && cx.rng.below(if nedges == 2 { 15 } else { 250 }) != 0 {
                     continue;
                 }
                 let mut kc0 = kc;
@@ -1200,6 +1239,22 @@ pub fn refs(cx: &mut Ctx) {
                 c.bind.insert("zero".into(), V::Int(0));
                 c.forms = forms(&["bound", "thread"]);
                 c.extra = child.clone();
+                // every edge evaluates its target: if the walk from p1 comes back to a program, evaluation must enter the cycle
+                let mut at = 0usize;
+                let mut seen = vec![false; n];
+                let cyclic = loop {
+                    if at >= n {
+                        break false;
+                    }
+                    if seen[at] {
+                        break true;
+                    }
+                    seen[at] = true;
+                    at = succ[at];
+                };
+                if cyclic {
+                    c.extra = serde_json::json!({"child": true, "law": "cycle"});
+                }
                 cx.out(c);
             }
         }
@@ -1324,6 +1379,31 @@ pub fn parse_eval(cx: &mut Ctx) {
                 c.bind.insert("c".into(), V::Int(2));
                 c.forms = forms(&["bound", "full", "randparen", "ws", "lit"]);
                 cx.out(c);
+            }
+        }
+    }
+    // runs of unary operators: `--x` is `-(-x)` and `!!x` is `!(!x)`, also where the operator is not an involution on
+    // the operand (uint, the least int, bool, text), alone and beside a binary operator of every level
+    let operands = [V::Int(5), V::Int(i64::MIN), V::Int(0), V::Uint(1), V::Uint(0), V::Dbl(2.5), V::Dbl(-0.0), V::Bool(true), V::Bool(false), V::Str("abc".into()), V::Str("".into()), V::Null,
+                    V::List(vec![]), V::Dur(1_500_000_000)];
+    for v in operands.iter() {
+        for op in ['-', '!'] {
+            for n in 1..=4u32 {
+                let shapes: Vec<T> = vec![
+                    un(op, n, id("a")),
+                    bin("-", id("b"), un(op, n, id("a"))),
+                    bin("*", un(op, n, id("a")), id("b")),
+                    bin("==", un(op, n, id("a")), un(op, n, T::Paren(Box::new(id("a"))))),
+                    bin("||", un(op, n, id("a")), id("b")),
+                    un(op, n, idx(T::List(vec![id("a")]), lit(V::Int(0)))),
+                ];
+                for t in shapes {
+                    let mut c = cx.case(t);
+                    c.bind.insert("a".into(), v.clone());
+                    c.bind.insert("b".into(), V::Int(3));
+                    c.forms = forms(&["bound", "full", "randparen", "ws", "lit"]);
+                    cx.out(c);
+                }
             }
         }
     }
